@@ -68,8 +68,8 @@ PROPS["C04"] = dict(
 
 PROPS["C06"] = dict(
     level="proof",
-    verus=["c04_partition"],
-    labels=["C06."] + MASK,
+    verus=["c04_partition", "c10_engine"],
+    labels=["C06.", "C07.engine.", "C10.engine.ok_replaces_rules", "C07.tags_with_set."] + MASK,
     kani=[],
     trusted=["NetworkFilterList::add_filter appends to the rules held (C01 units)", "regex cache (address-keyed) is NOT under contract"],
     assumptions=[],
@@ -80,7 +80,7 @@ PROPS["C06"] = dict(
 
 PROPS["C07"] = dict(
     level="proof",
-    verus=["c01_lookup", "c04_partition", "c04_precedence"],
+    verus=["c01_lookup", "c04_partition", "c04_precedence", "c10_engine"],
     labels=["C07.", "C01.check", "C04.check.important", "C04.check.matched", "C04.check.exception", "C04.new.importants", "C04.new.exceptions", "C04.new.tagged", "C04.new.csp"] + MASK,
     kani=[],
     trusted=["R6: the filter/clone iterator chain in tags_with_set computes the stated sub-sequence",
@@ -107,7 +107,7 @@ PROPS["C01"] = dict(
 
 PROPS["C10"] = dict(
     level="proof",
-    verus=["c10_header"],
+    verus=["c10_header", "c10_engine"],
     labels=["C10."],
     kani=[],
     trusted=["rmp-serde msgpack decoding (v0::DeserializeFormat::deserialize body)"],
@@ -130,6 +130,23 @@ PROPS["C18"] = dict(
     level_text="Kani/CBMC full-domain proof of the permission subset test over all 256x256 pairs",
     level_note="only the permission predicate so far",
     design_ref="DESIGN.md section 4, C18",
+)
+
+PROPS["C05"] = dict(
+    level="proof",
+    verus=["c05_optimizer", "c04_partition"],
+    labels=["C05."] + MASK,
+    kani=[],
+    trusted=["core::fmt: for a fixed format string the key is an injective function of the formatted arguments (R6 lift of format!)",
+             "Iterator::any/all over a slice (vf_iter shim)", "raw_line join (debug text only)",
+             "NetworkFilterList::optimize bucket rewrite (Arc::try_unwrap / drain) and apply_optimisation regrouping are not under contract",
+             "any-of law of the matcher for fused patterns (bounded in C02)"],
+    assumptions=[],
+    level_text="Verus proves that only rules without domains/hostname anchor/redirect/csp are eligible, that two rules with equal grouping keys agree on mask and tag "
+               "(self-composition of the real key expression), that fusion keeps every non-pattern field of the first member, sets the regex bits to the disjunction and carries exactly the members' patterns, "
+               "and that the removeparam list is never optimised",
+    level_note="the per-bucket rewrite in NetworkFilterList::optimize is trusted; fuse-equivalence relies on the matcher's any-of law",
+    design_ref="DESIGN.md section 4, C05",
 )
 
 for _p in PROPS.values():
